@@ -108,11 +108,12 @@ def corpus(ctx, rng):
             seq = ["ALA", "ALA", "ALA"]
             seq[pos] = x
             wat = gen.water((6, 14, 4), resseq=101)
-            jobs.append({"what": f"{'-'.join(seq)}+water", "text": gen.pdb_text([gen.peptide(seq) + wat]),
-                         "args": [f"--ff={ffs[k % 6]}"] + opts_cycle[k % len(opts_cycle)]})
-            k += 1
+            for oc in ([opts_cycle[k % len(opts_cycle)]] if ctx.quick else opts_cycle):
+                jobs.append({"what": f"{'-'.join(seq)}+water", "text": gen.pdb_text([gen.peptide(seq) + wat]),
+                             "args": [f"--ff={ffs[k % 6]}"] + oc})
+                k += 1
     envs = []
-    for rep in range(3 if ctx.quick else 10):
+    for rep in range(3 if ctx.quick else 30):
         envs += [(f"{n}#{rep}", c) for n, c in environments(rng)]
     for name, chains in envs + damaged(rng):
         for o in ([[], ["--noopt"]] if ctx.quick else [[], ["--noopt"], ["--nodebump"], ["--ff=PARSE"]]):
@@ -134,7 +135,7 @@ def corpus(ctx, rng):
     pep = gen.peptide(["ALA", "SER", "LYS", "GLY", "ASP"])
     jobs.append({"what": "ligand-complex", "text": gen.pdb_text([pep + gen.water((6, 14, 4), resseq=101), lig]),
                  "args": ["--ff=AMBER", f"--ligand={os.path.join(DATA, 'acetate.mol2')}"]})
-    real = ["1AJJ.pdb", "cterm_hid.pdb", "5vav_cyclic_peptide.pdb", "1BX8.pdb", "1K1I.pdb"] if ctx.quick else ["1AJJ.pdb", "cterm_hid.pdb", "5vav_cyclic_peptide.pdb", "1BX8.pdb", "1K1I.pdb", "1A1P.pdb"]
+    real = ["1AJJ.pdb", "cterm_hid.pdb", "5vav_cyclic_peptide.pdb", "1BX8.pdb", "1K1I.pdb"] if ctx.quick else sorted(os.path.basename(f) for f in __import__("glob").glob(os.path.join(DATA, "*.pdb")))
     for n, f in enumerate(real):
         jobs.append({"what": f, "text": open(os.path.join(DATA, f)).read(), "args": [f"--ff={ffs[n % 6]}"] + opts_cycle[(2 * n) % len(opts_cycle)]})
     return jobs
